@@ -8,13 +8,15 @@ EXPLANATION = (
     "Typestate/transition analysis on MIR: every builder method that takes the builder by value and returns it (count from "
     "signatures) carries every slot over from `self` unchanged except the one slot it is named after, which is set from its "
     "parameter (Some(param) for optional slots, the collected parameter for vector slots, MetaType::new::<TY>() for ty/compact); "
-    "finalisers pass each slot to the like-named field of a constructor that is a field-wise identity; accumulation is Vec::push "
-    "at the end only, and the accumulating vectors have no other writer; the MetaForm push_field pushes exactly under "
-    "!field.ty.is_phantom() and TypeDefTuple<MetaForm> is only built by TypeDefTuple::new through filter(!is_phantom); the "
-    "portable push_field pushes unconditionally; `docs` setters store only under the docs feature and are the identity "
-    "otherwise, `docs_always` always store."
+    "finalisers, accumulators and the phantom filter are decided on symbolic runs of the functions (rules/lib/symrun.py: the MIR is "
+    "interpreted on symbolic builder values, crate-local callees, constructors and closures included, std by a table; nothing is "
+    "executed): FieldBuilder/VariantBuilder::finalize, Variants::finalize, TypeBuilder::composite/variant produce exactly the model "
+    "value whose fields are the builder's slots; Variants::variant / variant_unit / FieldsBuilder::field* apply the user's closure once "
+    "to an empty builder and push exactly the finalised result at the end (the accumulating vectors have no other writer); the MetaForm "
+    "path pushes iff the field's type is not PhantomData, TypeDefTuple::new keeps exactly the non-phantom members, the portable path "
+    "pushes unconditionally; `docs` setters store only under the docs feature and are the identity otherwise, `docs_always` always store."
 )
-MANIFEST = {"technique": "static analysis: typestate transition / slot-provenance rules over MIR, who-may-write tables, control-dependence of the phantom filter"}
+MANIFEST = {"technique": "static analysis: typestate transition summaries and symbolic (abstract-interpretation) runs of the builder functions over MIR, who-may-write tables"}
 
 B = "scale_info::build::"
 BUILDERS = {
